@@ -25,7 +25,10 @@ RULE = ("generated points (d=1..5, 1-D and 2-D arrays) x index lists for periodi
         "scalar-vs-vector result of check_bounds); result shape and dtype compared too. Suite property-S: the property oracle on float32 input. "
         "Suites callsite-rwm/tpcn: ONE iteration of the real RWMRunner/TPCNRunner with taped normal draws (n_walkers 1..4, adversarial "
         "increments); the recorded raw proposals go through the model `proposeAll` and must give, bit for bit, the points handed to "
-        "prior_transform and the in_bounds flags; rejected walkers must not move (fix 9001dc4).")
+        "prior_transform and the in_bounds flags; rejected walkers must not move (fix 9001dc4). "
+        "Suite sequence-F (seeded change C16f): call SEQUENCES (3-8 calls) in which the same two index containers (list / int64 array) are re-used and "
+        "mutated in place between calls (item and slice assignment, append, pop, clear), swap roles, alternate with None and fresh copies and meet "
+        "another n_dim; every call is judged on its own with the contents at that call: exact property oracle and bit-exact Float model.")
 MODELLED = ["numpy float remainder `x % 1.0` is modelled as x - floor x (identical for every finite double; checked bit-for-bit here)",
             "NaN / +-inf inputs are outside the statement and not generated",
             "H_round (used only by the C16_round_* theorems): binary64 subtraction is the exact difference followed by a monotone, "
@@ -226,6 +229,7 @@ def correspond(tier):
     out.append(_property_suite_f32(tier))
     out += c16_calls.callsite_suites(tier, gens)
     out.append(c16_calls.validation_suite(tier))
+    out.append(c16_calls.sequence_suite(tier, gens))
     return out
 
 
@@ -361,6 +365,15 @@ def search(tier, hints):
     found = []
     cands = []
     f32_cands, site_cands, cands2 = [], [], []
+    seq_cands = [h["seq"] for h in hints if "seq" in h]
+    srng = common.rng_for("C16.search.seq")
+    for _ in range(400 if tier == "quick" else 8000):
+        seq_cands.append(c16_calls.seq_gen(srng, _rand_double))
+    for seq in seq_cands:
+        msg = c16_calls.seq_oracle(seq)
+        if msg:
+            found.append({"what": msg, "seq": seq})
+            break
     for h in hints:
         if "cfg" in h:
             msg = c16_calls.config_oracle(h["cfg"], oracle)
@@ -438,6 +451,9 @@ def replay(obj):
     if "witness" in f.get("replay", {}):
         from . import witnesses
         return witnesses.ALL[f["replay"]["witness"]]()
+    if "seq" in f:
+        msg = c16_calls.seq_oracle(f["seq"])
+        return {"fails": msg is not None, "detail": msg}
     if "cfg" in f:
         msg = c16_calls.config_oracle(f["cfg"], oracle)
         return {"fails": msg is not None, "detail": msg}
